@@ -80,3 +80,94 @@ Proof.
     + intros E; inversion E. left; reflexivity.
   - intros E; inversion E. left; reflexivity.
 Qed.
+
+(* ------------------------------------------------------------------ the pages a window names *)
+Lemma gnt_refs_new_val m domid base : forall count i, base + i + N.of_nat count <= W32 ->
+  gnt_refs_new m domid base i count = Val (map (fun k => (domid, base + i + N.of_nat k)) (seq 0 count)).
+Proof.
+  induction count as [|k IH]; intros i B; cbn [gnt_refs_new seq map]; [reflexivity|].
+  assert (W : W32 = 4294967296) by reflexivity.
+  rewrite (N.mod_small i) by lia.
+  destruct (N.ltb_spec (base + i) W32) as [_|X]; [|lia]. cbn [bind].
+  rewrite IH by lia. cbn [bind]. f_equal. f_equal; [f_equal; lia|].
+  rewrite <- seq_shift, map_map. apply map_ext. intros a. f_equal. lia.
+Qed.
+
+Lemma grant_refs_loop_lemma : forall m domid base count, base + count <= 4294967296 ->
+  gnt_refs_new m domid base 0 (N.to_nat count) = Val (named_refs domid base count).
+Proof.
+  intros m domid base count B. rewrite gnt_refs_new_val by (unfold W32; lia).
+  unfold named_refs. f_equal. apply map_ext. intros a. f_equal. lia.
+Qed.
+
+Lemma refs_seq_named domid : forall n g k, 
+  refs_seq domid (g + N.of_nat k) (map (fun i => (domid, g + N.of_nat i)) (seq k n)) = true.
+Proof.
+  induction n as [|n IH]; intros g k; cbn [seq map refs_seq]; [reflexivity|].
+  rewrite !N.eqb_refl. cbn [andb].
+  replace (g + N.of_nat k + 1) with (g + N.of_nat (S k)) by lia. apply IH.
+Qed.
+
+Lemma maps_named_add domid evs : maps_named domid (add_refs domid evs) = true.
+Proof.
+  induction evs as [|e r IH]; [reflexivity|].
+  destruct e as [g c i|i c|l]; cbn [add_refs maps_named]; try exact IH.
+  unfold named_refs. rewrite map_length, seq_length, N2Nat.id, N.eqb_refl. cbn [andb].
+  pose proof (refs_seq_named domid (N.to_nat c) g 0) as R. rewrite N.add_0_r in R. rewrite R. exact IH.
+Qed.
+
+Lemma covered_strip ps gb evs t : covered ps gb (strip_refs evs) t = covered ps gb evs t.
+Proof.
+  unfold covered, strip_refs. induction evs as [|e r IH]; [reflexivity|].
+  destruct e; cbn [filter existsb]; rewrite IH; reflexivity.
+Qed.
+Lemma covered_add d ps gb evs t : covered ps gb (add_refs d evs) t = covered ps gb evs t.
+Proof.
+  unfold covered. induction evs as [|e r IH]; [reflexivity|].
+  destruct e; cbn [add_refs existsb orb]; rewrite IH; reflexivity.
+Qed.
+
+Lemma op_ok_strip c op p : op_ok c op (strip_op p) = op_ok c op p.
+Proof.
+  unfold op_ok, strip_op. cbn [p_r p_data p_live p_evs].
+  destruct (touched (cx_size c) op) as [[f n]|]; [|reflexivity]. rewrite covered_strip. reflexivity.
+Qed.
+Lemma op_ok_add d c op p : op_ok c op (add_refs_op d p) = op_ok c op p.
+Proof.
+  unfold op_ok, add_refs_op. cbn [p_r p_data p_live p_evs].
+  destruct (touched (cx_size c) op) as [[f n]|]; [|reflexivity]. rewrite covered_add. reflexivity.
+Qed.
+Lemma ops_ok_map c (F : opobs -> opobs) : (forall op p, op_ok c op (F p) = op_ok c op p) ->
+  forall ops os, ops_ok c ops (map F os) = ops_ok c ops os.
+Proof.
+  intros H. induction ops as [|op r IH]; intros [|p os]; cbn [map ops_ok]; try reflexivity.
+  rewrite H, IH. reflexivity.
+Qed.
+Lemma ok_C17x_strip c o : ok_C17x c (strip_obs o) = ok_C17x c o.
+Proof.
+  unfold ok_C17x, strip_obs. cbn [ox_built ox_ops ox_mapped_alive ox_mapped_end ox_live_end].
+  rewrite (ops_ok_map c strip_op (op_ok_strip c)). reflexivity.
+Qed.
+Lemma ok_C17x_add d c o : ok_C17x c (add_refs_obs d o) = ok_C17x c o.
+Proof.
+  unfold ok_C17x, add_refs_obs. cbn [ox_built ox_ops ox_mapped_alive ox_mapped_end ox_live_end].
+  rewrite (ops_ok_map c (add_refs_op d) (op_ok_add d c)). reflexivity.
+Qed.
+
+Lemma named_add_obs d o : forallb (fun p => maps_named d (p_evs p)) (ox_ops (add_refs_obs d o)) = true.
+Proof.
+  unfold add_refs_obs. cbn [ox_ops]. induction (ox_ops o) as [|p r IH]; [reflexivity|].
+  cbn [map forallb add_refs_op p_evs]. rewrite maps_named_add. exact IH.
+Qed.
+
+Lemma ok_C17xn_of_x c o : ok_C17x c o = true ->
+  ok_C17xn c (add_refs_obs (case_domid (cx_gbase c) (cx_page c)) o) = true.
+Proof.
+  intros H. unfold ok_C17xn. rewrite ok_C17x_strip, ok_C17x_add, H, named_add_obs. reflexivity.
+Qed.
+
+Lemma C17xn_model_ok_lemma : forall c ops, wf17x c -> xops_of (cx_ops c) = Some ops -> no_unguarded c ->
+  ok_C17xn c (run_C17xn c ops) = true.
+Proof.
+  intros c ops W X NU. unfold run_C17xn. apply ok_C17xn_of_x. exact (C17x_model_ok_lemma c ops W X NU).
+Qed.
